@@ -93,7 +93,7 @@ func (g *ygen) scalar(forKey bool) *YN {
 		n.T = "int"
 		n.S = rapid.SampledFrom([]string{"0", "1", "-1", "42", "1000", "2147483648", "-9223372036854775808", "9223372036854775807", "7"}).Draw(t, "int")
 		if g.o.Hostile && rapid.IntRange(0, 3).Draw(t, "big") == 0 {
-			n.S = rapid.SampledFrom([]string{"9007199254740993", "-9007199254740993", "4611686018427387904", "9223372036854775808", "18446744073709551615", "0x1F", "0x7FFFFFFFFFFFFFFF", "0x8000000000000000", "0xFFFFFFFFFFFFFFFF", "0o17"}).Draw(t, "bigint")
+			n.S = rapid.SampledFrom([]string{"9007199254740993", "-9007199254740993", "4611686018427387904", "9223372036854775808", "18446744073709551615", "0x1F", "0x7FFFFFFFFFFFFFFF", "0x8000000000000000", "0xFFFFFFFFFFFFFFFF", "0o17", "-0x10", "+0x1F", "-0o17", "0b101", "-0b11", "-0x8000000000000000"}).Draw(t, "bigint")
 			if rapid.IntRange(0, 4).Draw(t, "huge") == 0 {
 				// typed !!float by the YAML reader: the YAML leg of the open big-integer finding, kept rare
 				n.S = rapid.SampledFrom([]string{"-9223372036854775809", "123456789012345678901234567890"}).Draw(t, "hugeint")
@@ -528,9 +528,13 @@ func (n *YN) Data() *model.Value {
 	case "bool":
 		return model.NewBool(strings.EqualFold(n.S, "true"))
 	case "int":
-		for pre, base := range map[string]int{"0x": 16, "0o": 8} {
-			if strings.HasPrefix(n.S, pre) {
-				if i, ok := new(big.Int).SetString(n.S[2:], base); ok {
+		sign, mag := "", n.S
+		if strings.HasPrefix(mag, "-") || strings.HasPrefix(mag, "+") {
+			sign, mag = mag[:1], mag[1:]
+		}
+		for pre, base := range map[string]int{"0x": 16, "0o": 8, "0b": 2} {
+			if strings.HasPrefix(mag, pre) {
+				if i, ok := new(big.Int).SetString(sign+mag[2:], base); ok {
 					return model.NewBig(i)
 				}
 			}
